@@ -7,13 +7,13 @@ import subprocess
 from . import common
 
 
-def check(module, inv, length=0, defs=None, timeout=900):
+def check(module, inv, length=0, defs=None, timeout=900, init=None, tag=""):
     """Runs `apalache-mc check --inv=<inv>` on spec/<module>.tla (constants substituted textually from defs).
     Returns (verdict, detail): verdict in {"ok", "violated", "unavailable"}."""
     exe = shutil.which("apalache-mc")
     if not exe:
         return "unavailable", "apalache-mc not on PATH"
-    d = common.subscratch("apalache")
+    d = common.subscratch("apalache" + tag)
     src = open(os.path.join(common.VERIF, "spec", module + ".tla")).read()
     for k, v in (defs or {}).items():
         src, n = re.subn(r"(?m)^%s == .*$" % re.escape(k), "%s == %s" % (k, v), src)
@@ -22,8 +22,8 @@ def check(module, inv, length=0, defs=None, timeout=900):
     with open(os.path.join(d, module + ".tla"), "w") as f:
         f.write(src)
     try:
-        p = subprocess.run([exe, "check", "--inv=" + inv, "--length=%d" % length, "--out-dir=" + os.path.join(d, "out"),
-                            module + ".tla"], cwd=d, stdout=subprocess.PIPE, stderr=subprocess.STDOUT, text=True, timeout=timeout)
+        p = subprocess.run([exe, "check", "--inv=" + inv, "--length=%d" % length, "--out-dir=" + os.path.join(d, "out")]
+                           + (["--init=" + init] if init else []) + [module + ".tla"], cwd=d, stdout=subprocess.PIPE, stderr=subprocess.STDOUT, text=True, timeout=timeout)
     except subprocess.TimeoutExpired:
         return "unavailable", "timeout after %ds" % timeout
     out = p.stdout
